@@ -38,7 +38,7 @@ fn c04_sgr_color() {
     let n: usize = kani::any();
     kani::assume(n <= 6);
     let colon: bool = kani::any();
-    let fields: [&[u8]; 6] = [b"1", b"2", b"3", b"4", b"5", b"6"];
+    let fields: [&[u8]; 6] = [b"b", b"c", b"d", b"e", b"f", b"g"];
     let got = sgr_color(fields[..n].iter().copied(), colon);
     let cl = |x: usize| -> u8 { if x > 255 { 255 } else { x as u8 } };
     if n >= 2 && v[1] == 5 {
